@@ -55,6 +55,9 @@ M0(c) ==
     readyOut |-> {},            \* output ids whose node became ready while still waiting (computed graph)
     returned |-> 0,
     cancelled|-> FALSE,         \* the caller cancelled
+    mustSignal |-> {},          \* steps with a cancel handler whose plugin was executing when their context ended
+    sigSent  |-> {},            \* steps the cancel signal was enqueued for (or whose plugin had already finished)
+    forced   |-> {},            \* steps whose connection was force closed while the plugin executed
     evalFailed |-> FALSE,       \* some expression could not be evaluated at run time
     errKinds |-> {} ]
 
@@ -212,8 +215,9 @@ OnReturn(mm, e) ==
               THEN {<<"C03", "error-returned-although-an-output-was-ready", "">>} ELSE {}
       c8 == IF mm.plugLive # {} THEN {<<"C06", "plugin-still-executing-at-return", "">>} ELSE {}
       c9 == IF e.iserr /\ e.bug THEN {<<"C08", "internal-bug-error-returned", "">>} ELSE {}
+      c11 == IF mm.mustSignal \ mm.sigSent # {} THEN {<<"C06", "executing-plugin-with-cancel-handler-was-not-signalled", CHOOSE x \in mm.mustSignal \ mm.sigSent : TRUE>>} ELSE {}
       c10 == IF mm.evalFailed /\ ~e.iserr THEN {<<"C07", "evaluation-failure-did-not-surface-as-error", e.id>>} ELSE {}
-  IN  VS([mm EXCEPT !.returned = @ + 1], c1 \cup c2 \cup c3 \cup c4 \cup c5 \cup c6 \cup c7 \cup c8 \cup c9 \cup c10)
+  IN  VS([mm EXCEPT !.returned = @ + 1], c1 \cup c2 \cup c3 \cup c4 \cup c5 \cup c6 \cup c7 \cup c8 \cup c9 \cup c10 \cup c11)
 
 Dispatch(mm, e) ==
   CASE e.ev = "HEnter" /\ e.h = "K" -> OnKick(mm, e)
@@ -238,6 +242,8 @@ Dispatch(mm, e) ==
     [] e.ev = "XExecStart"-> OnXExecStart(mm, e)
     [] e.ev = "XExecEnd"  -> [mm EXCEPT !.plugLive = @ \ {e.step}]
     [] e.ev = "XCallerCancel" -> [mm EXCEPT !.cancelled = TRUE]
+    [] e.ev = "SRunCtx"   -> IF e.handler /\ e.step \in mm.plugLive THEN [mm EXCEPT !.mustSignal = @ \cup {e.step}] ELSE mm
+    [] e.ev = "SSig"      -> [mm EXCEPT !.sigSent = @ \cup {e.step}]
     [] e.ev = "Return"    -> OnReturn(mm, e)
     [] OTHER -> mm
 
